@@ -30,6 +30,7 @@ def closeBegins (s : State) : Step → Option Nat
      | _, _ => none)
   | .ioFail sid => if s.io == .idle && s.eng sid == .connecting then some sid else none
   | .ioPeerClose sid => if s.io == .idle && s.eng sid == .established then some sid else none
+  | .timerClose sid => if s.io == .idle && s.eng sid == .connecting then some sid else none
   | _ => none
 
 def xstep (cfg : Cfg) (x : XState) (st : Step) (n : Nat) : XState :=
